@@ -10,6 +10,7 @@ struct F {
     md: char,
     dv: Option<Val>,
     late: bool,
+    then: Option<Val>,
 }
 
 const INTS: [i64; 7] = [0, 1, 2, 3, 5, -1, 10];
@@ -31,24 +32,25 @@ fn gen_schema(g: &mut Gen) -> Schema {
     let n = 2 + g.below(2);
     let mut ents = vec![];
     for _ in 0..n {
-        let mut fs = vec![F { ty: 'I', to: 0, md: 'r', dv: None, late: false }];
+        let mut fs = vec![F { ty: 'I', to: 0, md: 'r', dv: None, late: false, then: None }];
         for _ in 0..(2 + g.below(3)) {
             let ty = ['I', 'S', 'B'][g.below(3)];
             let md = ['r', 'n', 'd'][g.weighted(&[3, 4, 3])];
             let dv = if md == 'd' { Some(pool_val(ty, g)) } else { None };
-            fs.push(F { ty, to: 0, md, dv, late: false });
+            let then = if md == 'n' && g.chance(1, 5) { Some(pool_val(ty, g)) } else { None };
+            fs.push(F { ty, to: 0, md, dv, late: false, then });
         }
         for _ in 0..g.below(3) {
-            fs.push(F { ty: 'R', to: g.below(n), md: if g.chance(1, 2) { 'n' } else { 'r' }, dv: None, late: false });
+            fs.push(F { ty: 'R', to: g.below(n), md: if g.chance(1, 2) { 'n' } else { 'r' }, dv: None, late: false, then: None });
         }
         if g.chance(2, 3) {
-            fs.push(F { ty: 'A', to: g.below(n), md: if g.chance(1, 2) { 'n' } else { 'r' }, dv: None, late: false });
+            fs.push(F { ty: 'A', to: g.below(n), md: if g.chance(1, 2) { 'n' } else { 'r' }, dv: None, late: false, then: None });
         }
         for _ in 0..g.below(3) {
             let ty = ['I', 'S', 'B'][g.below(3)];
             let md = if g.chance(2, 3) { 'd' } else { 'n' };
             let dv = if md == 'd' { Some(pool_val(ty, g)) } else { None };
-            fs.push(F { ty, to: 0, md, dv, late: true });
+            fs.push(F { ty, to: 0, md, dv, late: true, then: None });
         }
         ents.push(fs);
     }
@@ -106,7 +108,7 @@ fn gen_node(cx: &mut Ctx, ent: usize, depth: usize, root_alias: bool, paging_ok:
     let mut sub_keys: Vec<String> = vec![];
     if depth < 2 || (depth < 3 && cx.g.chance(1, 3)) {
         for (j, f) in e.iter().enumerate() {
-            if (f.ty == 'R' || f.ty == 'A') && cx.g.chance(if depth == 0 { 3 } else { 2 }, 5) {
+            if (f.ty == 'R' || f.ty == 'A') && cx.g.chance(if depth == 0 { 2 } else { 1 }, 4) {
                 let child = gen_node(cx, f.to, depth + 1, false, paging_ok);
                 let key = if cx.g.chance(1, 4) {
                     cx.alias_n += 1;
@@ -120,12 +122,13 @@ fn gen_node(cx: &mut Ctx, ent: usize, depth: usize, root_alias: bool, paging_ok:
         }
     }
     for k in &sub_keys {
-        if cx.g.chance(1, 3) {
+        if cx.g.chance(1, 2) {
             cx.lines.push(format!("qn n={} key={}", n, k));
         }
     }
     // ---- filters
-    for _ in 0..cx.g.weighted(&[4, 4, 2]) {
+    let nf = if depth == 0 { cx.g.weighted(&[3, 5, 2]) } else { cx.g.weighted(&[7, 3, 0]) };
+    for _ in 0..nf {
         let use_alias = cx.g.chance(1, 3) && selected.iter().any(|x| x.2);
         let (name, j, sel) = if use_alias {
             let al: Vec<&(String, usize, bool)> = selected.iter().filter(|x| x.2).collect();
@@ -137,11 +140,11 @@ fn gen_node(cx: &mut Ctx, ent: usize, depth: usize, root_alias: bool, paging_ok:
         };
         let f = &e[j];
         let var = cx.g.chance(2, 5);
-        let nullable_now = f.md == 'n';
+        let nullable_now = f.md == 'n' && f.then.is_none();
         let (op, v) = if nullable_now && cx.g.chance(1, 5) {
             (["eq", "ne"][cx.g.below(2)], Val::Null)
         } else {
-            (["eq", "ne", "lt", "le", "gt", "ge"][cx.g.below(6)], pool_val(f.ty, cx.g))
+            (["eq", "ne", "lt", "le", "gt", "ge", "ne", "le", "ge"][cx.g.below(9)], pool_val(f.ty, cx.g))
         };
         cx.lines.push(format!("qf n={} name={} sel={} f={} op={} v={}{}", n, name, sel as u8, j, op, v.show(), if var { " var=1" } else { "" }));
     }
@@ -183,7 +186,8 @@ fn gen_node(cx: &mut Ctx, ent: usize, depth: usize, root_alias: bool, paging_ok:
         cx.lines.push(format!("qo n={} name={} sel={} f={} dir={}", n, name, *sel as u8, j, if desc { "desc" } else { "asc" }));
     }
     if limited {
-        cx.lines.push(format!("ql n={} first={} skip={}", n, cx.g.below(5), cx.g.below(3)));
+        let first = if cx.g.chance(1, 8) { 0 } else { 1 + cx.g.below(4) };
+        cx.lines.push(format!("ql n={} first={} skip={}", n, first, cx.g.below(3)));
     }
     if cursor {
         let k = 1 + cx.g.below(orders.len());
@@ -215,6 +219,9 @@ pub fn gen(seed: u64, n_cases: usize, out: &str, tier: &str) {
                 if f.late {
                     l.push_str(" late=1");
                 }
+                if let Some(t) = &f.then {
+                    l.push_str(&format!(" then={}", t.show()));
+                }
                 writeln!(w, "{}", l).unwrap();
             }
         }
@@ -239,13 +246,14 @@ pub fn gen(seed: u64, n_cases: usize, out: &str, tier: &str) {
                 }
                 match f.ty {
                     'I' | 'S' | 'B' => {
+                        let now_default = f.md == 'd' || (f.then.is_some() && upgraded);
                         let give = match f.md {
                             'r' => true,
-                            'n' => g.chance(2, 3),
+                            'n' if !now_default => g.chance(2, 3),
                             _ => g.chance(1, 2),
                         };
                         if give {
-                            let v = if f.md == 'n' && g.chance(1, 3) { Val::Null } else { pool_val(f.ty, &mut g) };
+                            let v = if f.md == 'n' && !now_default && g.chance(1, 3) { Val::Null } else { pool_val(f.ty, &mut g) };
                             vals.push(format!("{}:{}", j, v.show()));
                         }
                     }
